@@ -356,7 +356,8 @@ PROPS = {
         "assumptions": ["single-threaded harness: the bare remote equals the just-fetched state"],
         "tests": [{"name": "TestC02Pull", "quick": 60, "shards_quick": 4, "thorough": 400, "shards": 16},
                   {"name": "TestC02CachePull", "quick": 40, "shards_quick": 3, "thorough": 300, "shards": 8},
-                  {"name": "TestC02CLIPull", "quick": 8, "shards_quick": 3, "thorough": 60, "shards": 8}],
+                  {"name": "TestC02CLIPull", "quick": 8, "shards_quick": 3, "thorough": 60, "shards": 8},
+                  {"name": "TestC02InterruptedPull", "quick": 40, "shards_quick": 2, "thorough": 400, "shards": 8}],
     },
     "C03": {
         "level": "exploration",
